@@ -30,6 +30,11 @@ def k(unit, pid, features=None, **kw):
 
 KANI_TB = ['Kani 0.68 / CBMC 6.11 / CaDiCaL; Kani MIR semantics and its models of core',
            'tools/krun.py weaver: appends `#[cfg(kani)] mod verif_kani;` to lib.rs of a scratch copy of the working tree (additive)']
+FOREIGN = 'third-party implementors other than the two harness-defined ones (getters only; getters + overridden to_bytes): covered by parametricity of the default methods, assuming their getters are pure total functions'
+prop('C01', [k('k_short', 'C01')], [FOREIGN], KANI_TB)
+prop('C02', [k('k_short', 'C02')], [FOREIGN], KANI_TB)
+prop('C03', [k('k_short', 'C03')], [FOREIGN], KANI_TB)
+prop('C06', [k('k_short', 'C06')], [FOREIGN], KANI_TB)
 prop('C04', [k('k_newtype', 'C04'), k('k_newtype', 'C04', 'none'), v('v_msg', 'C04'), v('v_cc14', 'C04'), v('v_nrpn', 'C04'), v('v_poll', 'C04')],
      ['restricted-integer inputs of every harness / contract are assumed in range (type invariant as precondition)', B1], VERUS_TB + KANI_TB)
 prop('C05', [k('k_newtype', 'C05')], ['Hash agreement with the numeric value is not examined (derived)'], KANI_TB)
@@ -81,4 +86,12 @@ DESC['C04'] = {'engine': 'kani', 'ref': '5/C04', 'technique': 'Kani harnesses ov
 DESC['C05'] = {'engine': 'kani', 'ref': '5/C05', 'technique': 'Kani harnesses over full-width symbolic inputs: value preservation of all conversions, Ord/Eq/Default/MIN/MAX, Display through core::fmt against an own decimal routine',
                'text': 'Complete proof of value preservation for every instantiated conversion and of comparison operators for all pairs; Display proved for every value of every type through the real core::fmt; FromStr proved relative to the primitive parser for every string and on the real parser up to a stated bound (bounded part not counted).',
                'note': KNOTE}
-NOT_APPLICABLE = {p: 'check under construction in this session (Kani unit not yet registered)' for p in ('C01', 'C02', 'C03', 'C06', 'C19')}
+DESC['C01'] = {'engine': 'kani', 'ref': '5/C01', 'technique': 'Kani harnesses over all 2^21 symbolic byte triples and all StructuredShortMessage values, per implementor, against canon/structured_of written from the MIDI table',
+               'text': 'Complete (loop-free, full domain) proof for RawShortMessage, StructuredShortMessage and two foreign implementors: from_bytes Ok <=> status >= 0x80, bytes preserved (identity / canonicalisation), canon idempotent, structured->bytes->structured = id, quarter-frame and type-byte codecs.', 'note': KNOTE}
+DESC['C02'] = {'engine': 'kani', 'ref': '5/C02', 'technique': 'Kani harnesses: every trait method == table function of (status, d1, d2) written from the MIDI 1.0 status table, per implementor; type conversion over all 256 bytes',
+               'text': 'Complete proof over all valid byte triples for four implementors that each of the 20 accessors equals its table function; type-level vs message-level categories agree.', 'note': KNOTE}
+DESC['C03'] = {'engine': 'kani', 'ref': '5/C03', 'technique': 'Kani relational harnesses: all trait methods pairwise equal between RawShortMessage and each other implementor; conversions commute',
+               'text': 'Complete proof over all valid triples: 16 observers agree between raw and structured/foreign/overriding-foreign implementors, data bytes differ at most in information-free parts, to_other/from_other commute with accessors.', 'note': KNOTE + 'Arbitrary other third-party implementors: parametricity assumption.'}
+DESC['C06'] = {'engine': 'kani', 'ref': '5/C06', 'technique': 'Kani harnesses per constructor and implementor against expected_bytes from the statement; documented panics proved exact by unreachability of the return point',
+               'text': 'Complete proof for all argument tuples of the 19 named + 3 generic constructors on three implementors and of the test_util shorthands; wrong-category / out-of-range calls panic for every such input.', 'note': KNOTE}
+NOT_APPLICABLE = {p: 'check under construction in this session (Kani unit not yet registered)' for p in ('C19',)}
